@@ -1731,16 +1731,16 @@ func (schema *Schema) visitJSONString(settings *schemaValidationSettings, value 
 	if !settings.patternValidationDisabled && schema.Pattern != "" {
 		cpiface, _ := compiledPatterns.Load(schema.Pattern)
 		cp, _ := cpiface.(RegexMatcher)
+		var compileErr error
 		if cp == nil {
-			var err error
-			if cp, err = schema.compilePattern(settings.regexCompiler); err != nil {
+			if cp, compileErr = schema.compilePattern(settings.regexCompiler); compileErr != nil {
 				if !settings.multiError {
-					return err
+					return compileErr
 				}
-				me = append(me, err)
+				me = append(me, compileErr)
 			}
 		}
-		if !cp.MatchString(value) {
+		if compileErr == nil && !cp.MatchString(value) {
 			err := &SchemaError{
 				Value:                 value,
 				Schema:                schema,
